@@ -37,6 +37,7 @@ func init() {
 	register("C16", runC16, checkC16)
 	register("C17", runC17, checkC17)
 	register("C18", runC18, checkC18)
+	register("C19", runC19, checkC19)
 	register("C20", runC20, checkC20)
 }
 
@@ -71,6 +72,9 @@ func main() {
 			if i < len(os.Args) {
 				tier = os.Args[i]
 			}
+		case "--race-worker":
+			c19RaceWorker()
+			return
 		case "--replay":
 			i++
 			if i < len(os.Args) {
